@@ -18,8 +18,9 @@ import z3
 sys.path.insert(0, os.path.dirname(os.path.dirname(os.path.abspath(__file__))))
 from peg import encode, mrasm_ref as ref, pest  # noqa: E402
 
-GRAMMAR = "/repo/emulator-2a-lib/syntax/mrasm.pest"
-KL = "/verif/kani-lib"
+REPO = os.environ.get("VERIF_REPO", "/repo")
+GRAMMAR = REPO + "/emulator-2a-lib/syntax/mrasm.pest"
+KL = os.path.join(os.path.dirname(os.path.dirname(os.path.abspath(__file__))), "kani-lib")
 
 
 def real_verdicts(lines, header=False):
@@ -44,7 +45,7 @@ def model_string(m, sym):
 
 def corpus():
     lines = []
-    for f in sorted(glob.glob("/repo/programs/*.asm") + glob.glob("/repo/testing/programs/*.asm")):
+    for f in sorted(glob.glob(REPO + "/programs/*.asm") + glob.glob(REPO + "/testing/programs/*.asm")):
         for ln in open(f, errors="replace").read().splitlines():
             ln = ln.rstrip("\r")
             if "\n" not in ln and len(ln) <= 60:
